@@ -13,6 +13,8 @@ import Driver.LitEnc
 import Driver.SeqEnc
 import Driver.DStream
 import Driver.Serialize
+import Driver.BlockEnc
+import Driver.CStream
 
 def main (args : List String) : IO UInt32 := do
   match args with
@@ -31,4 +33,6 @@ def main (args : List String) : IO UInt32 := do
   | ["seqenc"] => Driver.SeqEnc.main; return 0
   | ["dstream"] => Driver.DStream.main; return 0
   | ["serialize"] => Driver.Serialize.main; return 0
+  | ["blockenc"] => Driver.BlockEnc.main; return 0
+  | ["cstream"] => Driver.CStream.main; return 0
   | _ => IO.eprintln "usage: zvdriver <model>"; return 2
